@@ -1,6 +1,7 @@
 // C13 — lambda double callbacks compute the expression's value (real abstraction of the floating-point code)
 #include "vrecipe.h"
 #include <symengine/lambda_double.h>
+#include <symengine/sets.h>
 using namespace vr;
 
 static Gen make_gen()
@@ -53,7 +54,7 @@ extern "C" void harness_c13_logic()
 {
     double xv = verif_real("x"), yv = verif_real("y");
     RCP<const Basic> x = symbol("x"), y = symbol("y");
-    int k = (int)verif_choice("k", 8);
+    int k = (int)verif_choice("k", 10);
     RCP<const Basic> e;
     double ref;
     switch (k) {
@@ -64,7 +65,19 @@ extern "C" void harness_c13_logic()
         case 4: e = piecewise({{x, Lt(x, y)}, {mul(integer(2), y), boolTrue}}); ref = xv < yv ? xv : 2.0 * yv; break;
         case 5: e = Lt(x, y); ref = xv < yv ? 1.0 : 0.0; break;
         case 6: e = logical_and({Le(x, y), Ne(x, integer(0))}); ref = (xv <= yv && xv != 0.0) ? 1.0 : 0.0; break;
-        default: e = logical_or({Eq(x, y), Gt(x, integer(2))}); ref = (xv == yv || xv > 2.0) ? 1.0 : 0.0; break;
+        case 7: e = logical_or({Eq(x, y), Gt(x, integer(2))}); ref = (xv == yv || xv > 2.0) ? 1.0 : 0.0; break;
+        case 8: { // membership in an interval with every combination of open / closed ends
+            bool lo = verif_choice("lo", 2), ro = verif_choice("ro", 2);
+            e = contains(x, interval(integer(2), integer(5), lo, ro));
+            ref = ((lo ? xv > 2.0 : xv >= 2.0) && (ro ? xv < 5.0 : xv <= 5.0)) ? 1.0 : 0.0;
+            break;
+        }
+        default: {
+            bool lo = verif_choice("lo", 2), ro = verif_choice("ro", 2);
+            e = piecewise({{x, contains(x, interval(integer(-1), integer(3), lo, ro))}, {y, boolTrue}});
+            ref = ((lo ? xv > -1.0 : xv >= -1.0) && (ro ? xv < 3.0 : xv <= 3.0)) ? xv : yv;
+            break;
+        }
     }
     bool cse = verif_choice("cse", 2);
     LambdaRealDoubleVisitor v;
